@@ -225,7 +225,7 @@ Proof.
     mstep get_prev_ok. mstep get_next_ok. mstep get_next_ok. rewrite Hpv, Hnx.
     mstep set_next_ok. mstep get_prev_ok. rewrite pv_setn by sz. rewrite Hpv.
     mstep set_prev_ok. mstep set_prev_ok.
-    erewrite bind_ok by (apply set_next_ok; sz).
+    mstep set_next_ok. unfold ret at 1. cbv beta.
     fold (pop_heap h a rprev rnext). unfold ret. cbn [to_out fst snd].
     split; [reflexivity|]. cbn [fst].
     assert (Hsz : size (pop_heap h a rprev rnext) = size h).
